@@ -127,13 +127,13 @@ pub fn run_backoff(rep: &mut Report, thorough: bool) {
     let mut maxes = vec![ms(1), ms(3), ms(1000), Duration::from_nanos(500_000)]; // the last one is < every initial
     let mut mults = vec![1u32, 2, 3];
     let mut counts = vec![0u32, 1, 2, 5];
-    let mut max_len = 8usize;
+    let mut max_len = 10usize;
     if thorough {
         initials.extend([Duration::ZERO, Duration::from_nanos(1), ms(7), Duration::from_secs(1)]);
         maxes.extend([Duration::ZERO, ms(200), ms(1600), Duration::from_secs(300), Duration::from_secs(86_400 * 365)]);
         mults.extend([0, 4, 10, 1000]);
         counts.extend([3, 4, 11, 12, 13, u32::MAX]);
-        max_len = 13;
+        max_len = 12;
     }
     let mut evals = 0u64;
     let mut nones = 0u64;
